@@ -6,7 +6,7 @@
 namespace {
 
 struct GHash { int st = ST_DEAD; size_t len = 0; };
-struct GHmac { int st = ST_DEAD; size_t len = 0; size_t lastkey = 0; };
+struct GHmac { int st = ST_DEAD; size_t len = 0; size_t lastkey = 0; uint64_t lastseed = 0; };
 struct GHkdf { int st = ST_DEAD; size_t cur = 0; bool exhaust = false; };
 struct GPrng { int st = ST_DEAD; uint64_t counter = 1, limit = 32; uint64_t since = 0; bool system = false; bool after_run = false; };
 
@@ -115,7 +115,12 @@ Op gen_hmac(Ctx &c, GHmac &g, int obj, bool erase_bias) {
     switch (o.kind) {
     case M_INIT: case M_REINIT:
         o.a = (g.lastkey && r.chance(1, 3)) ? g.lastkey : hmac_keylen(r);
-        g.lastkey = o.a;
+        if (g.lastseed && r.chance(1, 6)) {   // the new key shares its bytes with the previous one: a prefix or an extension of it
+            o.dseed = g.lastseed;
+            uint32_t y = r.below(4);
+            o.a = y == 0 ? g.lastkey / 2 : y == 1 ? (g.lastkey ? g.lastkey - 1 : 0) : y == 2 ? g.lastkey + 1 + r.below(40) : 0;
+        }
+        g.lastkey = o.a; g.lastseed = o.dseed;
         if (o.a == 0 && r.chance(1, 2)) o.flags |= F_NULLPTR;
         g.st = ST_LIVE; g.len = 64; break;
     case M_UPDATE:
@@ -304,7 +309,11 @@ Op gen_prng(Ctx &c, GPrng &g, int obj, bool erase_bias, bool sys_only) {
         }
         uint64_t lists = std::min<uint64_t>(nres, 40);
         if (g.system) { for (uint64_t i = 0; i < lists; i++) o.os.push_back(os_script(c, true)); }
-        else { for (uint64_t i = 0; i < lists; i++) o.del.push_back(delivery(c)); while (!o.del.empty() && o.del.back() == 32) o.del.pop_back(); }
+        else {
+            for (uint64_t i = 0; i < lists; i++) o.del.push_back(delivery(c));
+            while (!o.del.empty() && o.del.back() == 32) o.del.pop_back();
+            if (c.faults && r.chance(1, 25)) o.del.push_back(r.chance(1, 2) ? -1 : -2);   // from here on the source keeps failing (0 bytes / 7 bytes) for the rest of the call
+        }
         break;
     }
     case P_FEED:
